@@ -38,28 +38,51 @@ func (core *JApiCore) compileCore() *jerr.JApiError {
 }
 
 func (core *JApiCore) checkMacroForRecursion() *jerr.JApiError {
-	for macroName, macro := range core.macro {
-		if je := findPaste(macroName, macro); je != nil {
+	// Macros are checked in the order they are written, so the diagnostic does
+	// not depend on map iteration order.
+	done := make(map[string]struct{}, len(core.macro))
+	for _, name := range core.macroNames {
+		if je := core.checkMacro(name, map[string]struct{}{}, done); je != nil {
 			return je
 		}
 	}
 	return nil
 }
 
-func findPaste(macroName string, d *directive.Directive) *jerr.JApiError {
-	if d.Type() == directive.Paste {
-		switch d.NamedParameter("Name") {
-		case "":
-			return d.KeywordError(fmt.Sprintf("%s (%s)", jerr.RequiredParameterNotSpecified, "Name"))
+// checkMacro follows the PASTE directives reachable from the macro. Meeting a
+// macro which is still being walked means that macros paste one another in a
+// cycle, directly or through any number of intermediates.
+func (core *JApiCore) checkMacro(name string, walking, done map[string]struct{}) *jerr.JApiError {
+	if _, ok := done[name]; ok {
+		return nil
+	}
+	macro, ok := core.macro[name]
+	if !ok {
+		return nil // reported by processPaste: "macro not found"
+	}
+	walking[name] = struct{}{}
+	if je := core.findPaste(macro, walking, done); je != nil {
+		return je
+	}
+	delete(walking, name)
+	done[name] = struct{}{}
+	return nil
+}
 
-		case macroName:
+func (core *JApiCore) findPaste(d *directive.Directive, walking, done map[string]struct{}) *jerr.JApiError {
+	if d.Type() == directive.Paste {
+		name := d.NamedParameter("Name")
+		if name == "" {
+			return d.KeywordError(fmt.Sprintf("%s (%s)", jerr.RequiredParameterNotSpecified, "Name"))
+		}
+		if _, ok := walking[name]; ok {
 			return d.KeywordError("recursion is prohibited")
 		}
-	} else if d.Children != nil {
-		for _, c := range d.Children {
-			if je := findPaste(macroName, c); je != nil {
-				return je
-			}
+		return core.checkMacro(name, walking, done)
+	}
+	for _, c := range d.Children {
+		if je := core.findPaste(c, walking, done); je != nil {
+			return je
 		}
 	}
 	return nil
